@@ -95,8 +95,15 @@ func C07(c *Case) *Result {
 		}
 		res.Render["fault"] = map[string]any{"failBlock": failBlock, "failPoint": failPoint, "ioK": ioK, "ioKind": ioKind}
 		stuck := false
+		// a second, independent task failure in a quarter of the task.fail cases
+		failBlock2, failPoint2 := -1, ""
+		if fam == 1 && nblocks > 1 && t.Intn(4) == 0 {
+			failBlock2 = 1 + t.Intn(nblocks)
+			failPoint2 = []string{"enc.compute", "enc.acquired", "enc.emitted", "enc.wait"}[t.Intn(4)]
+			res.Probes["two.task.failures"]++
+		}
 		hooks.OnPoint = func(s *sim.Sched, ti *sim.TaskInfo, name string, arg int) error {
-			if failBlock > 0 && name == failPoint && arg == failBlock {
+			if (failBlock > 0 && name == failPoint && arg == failBlock) || (failBlock2 > 0 && name == failPoint2 && arg == failBlock2) {
 				s.Fault("task.fail@" + name)
 				return &sim.InjectedError{What: fmt.Sprintf("task failure at %s block %d", name, arg)}
 			}
